@@ -186,6 +186,23 @@ def run_actions(desc, ctx):
     ctx.sample(first)
 
 
+def _refused_reopen(sw, log, ob):
+    """Second open_links() on an open swarm: must raise, touch no link, and stay refused."""
+    n_log = len(log)
+    try:
+        sw.open_links()
+        ob['double'] = None
+    except Exception as e:  # noqa
+        ob['double'] = repr(e)
+    ob['still_open'] = sw._is_open
+    try:
+        sw.open_links()
+        ob['third'] = None
+    except Exception as e:  # noqa
+        ob['third'] = repr(e)
+    ob['touched_by_refused_open'] = [x[:2] for x in log[n_log:]]
+
+
 def run_open(desc, ctx):
     harness.init()
     from cflib.crazyflie.swarm import Swarm
@@ -210,19 +227,11 @@ def run_open(desc, ctx):
                         with sw:
                             ob['inside'] = True
                             ob['is_open_inside'] = sw._is_open
-                            try:
-                                sw.open_links()
-                                ob['double'] = None
-                            except Exception as e:  # noqa
-                                ob['double'] = repr(e)
+                            _refused_reopen(sw, log, ob)
                     else:
                         sw.open_links()
                         ob['inside'] = True
-                        try:
-                            sw.open_links()
-                            ob['double'] = None
-                        except Exception as e:  # noqa
-                            ob['double'] = repr(e)
+                        _refused_reopen(sw, log, ob)
                         sw.close_links()
                 except Exception as e:  # noqa
                     exc = e
@@ -256,6 +265,10 @@ def run_open(desc, ctx):
                     ctx.violate('swarm:open:raised-although-every-link-opened', dict(info, raised=repr(ob['exc'])), replay=rp)
                 if ob.get('double') is None:
                     ctx.violate('swarm:open:second-open_links-did-not-raise', info, replay=rp)
+                elif ob.get('touched_by_refused_open') or ob.get('third', 1) is None or ob.get('still_open') is False:
+                    ctx.violate('swarm:open:refused-second-open-changed-the-open-swarm',
+                                dict(info, link_calls=ob.get('touched_by_refused_open'), third_open=ob.get('third'),
+                                     still_open=ob.get('still_open')), replay=rp)
                 if {e[1] for e in closes} != set(uris) or ob['is_open']:
                     ctx.violate('swarm:open:links-not-closed-at-exit', dict(info, closed=sorted({e[1] for e in closes})), replay=rp)
                 opened_twice = [u for u in uris if sum(1 for e in opens if e[1] == u) != 1]
